@@ -1103,7 +1103,12 @@ impl Primitives for InvocationCtx<'_> {
         self.v.primitives.hash(hasher, data)
     }
     fn hash_64(&self, hasher: SupportedHashes, data: &[u8]) -> ([u8; 64], usize) {
-        self.v.primitives.hash_64(hasher, data)
+        // (the repository's FakePrimitives::hash_64 returns the multihash *code* as the length;
+        // the FVM returns the digest length)
+        let d = self.v.primitives.hash(hasher, data);
+        let mut buf = [0u8; 64];
+        buf[..d.len()].copy_from_slice(&d);
+        (buf, d.len())
     }
     fn recover_secp_public_key(
         &self,
